@@ -176,6 +176,10 @@ class Scen:
 
     # ---------------------------------------------------------------- actors
     def _start_actors(self):
+        if self.case.get("blocked_writes"):
+            # the peer has stopped reading: the kernel buffer is full, our writes pile up in the transport
+            self.out_tr.kernel_full = True
+            self.out_tr.set_write_buffer_limits(high=64, low=16)
         self.tasks["recv"] = self.loop.create_task(self._receiver())
         if self.case.get("closer"):
             self.gates["close"] = self.loop.create_future()
@@ -234,7 +238,10 @@ class Scen:
         await self.gates["send"]
         self.send_state = "running"
         try:
-            if self.case.get("bigsend"):
+            if self.case.get("blocked_writes"):
+                await self.ws.send_bytes(b"q" * 300)                   # crosses the transport's high-water mark
+                await self.ws.send_bytes(b"r" * 70000)                 # and the writer's own drain threshold: parks here
+            elif self.case.get("bigsend"):
                 await self.ws.send_bytes(bytes(range(256)) * 120)      # > 16 KiB: compressed in the executor
             else:
                 await self.ws.send_str("data-from-app")
@@ -489,6 +496,9 @@ def cases(quick):
         for pname in ("echo-close", "never-answers"):
             out.append({"name": f"{side}/o0/{pname}/closer+bigsend", "side": side, "opts": opt_sets[0], "peer": peers[pname], "closer": True, "sender": True, "bigsend": True,
                         "faults": ["cancel"]})
+        # the peer stops reading: a producer is parked in flow control when close() is called
+        out.append({"name": f"{side}/o0/blocked-writes/closer", "side": side, "opts": opt_sets[0], "peer": [], "closer": True, "sender": True, "blocked_writes": True,
+                    "faults": ["drop"]})
         # chatty peers that never complete the closing handshake: close() must still honour its timeout
         for opts in opt_sets[:2]:
             for tl_name, tl in (("chatty-8s", [(t, "text") for t in (8, 16, 24, 32, 40)]), ("ping-8s", [(t, "ping") for t in (8, 16, 24, 32)]),
